@@ -1,8 +1,11 @@
 package logqlengine
 
 import (
+	"cmp"
 	"maps"
 	"regexp"
+	"slices"
+	"strconv"
 
 	"github.com/cespare/xxhash/v2"
 	"go.opentelemetry.io/collector/pdata/pcommon"
@@ -30,6 +33,10 @@ func newAggregatedLabels(set LabelSet, by, without map[string]struct{}) *aggrega
 			name:  string(l),
 			value: v.AsString(),
 		})
+	})
+	// Canonical order: the grouping key must depend on the label set only, not on map iteration order.
+	slices.SortFunc(labels, func(a, b labelEntry) int {
+		return cmp.Compare(a.name, b.name)
 	})
 
 	return &aggregatedLabels{
@@ -71,7 +78,11 @@ func (a *aggregatedLabels) Without(labels ...logql.Label) logqlmetric.Aggregated
 func (a *aggregatedLabels) Key() logqlmetric.GroupingKey {
 	h := xxhash.New()
 	a.forEach(func(k, v string) {
+		// Frame the pair: label names contain no NUL, the value is length-prefixed.
 		_, _ = h.WriteString(k)
+		_, _ = h.WriteString("\x00")
+		_, _ = h.WriteString(strconv.Itoa(len(v)))
+		_, _ = h.WriteString("\x00")
 		_, _ = h.WriteString(v)
 	})
 	return h.Sum64()
